@@ -137,7 +137,7 @@ def c07_tie(ctx, data):
         return cached
     defs, idx, total = [], [], 0
     for k, d in enumerate(data):
-        if d is None or d["rc"] != 0:
+        if d is None or d["rc"] != 0 or d["h"].get("_nomodel"):
             continue
         h, res = d["h"], d["res"]
         eh = hist.emit_hist(h, res, h["nbase"], hist.identity_of(res))
